@@ -17,7 +17,9 @@ RULE = ("worlds mixing static data, plaintext and ciphertext secrets, references
         "Environment.Schema of either check run; extra families: one provider output consumed through access / interpolation / "
         "join / toJSON / toString / toBase64 / arrays / nested objects / merged under and over literals of imports / inputs of a "
         "second provider, with exact, loose (partial records, open tuples, bare types) and `always` declared schemas; "
-        "literal-only import graphs; providers declaring anyOf / oneOf of records (schema oracle only).  "
+        "literal-only import graphs; providers declaring anyOf / oneOf of records (schema oracle only); unopened closed / "
+        "map-like / nested provider records merged under and over literals with references before and after their targets "
+        "(model-vs-implementation schema comparison at the border of Corr/C06Schema.hist_class).  "
         "non-trivial = the open run calls a provider or the decrypter, or the case is inside the schema clause's hypothesis "
         "and decided")
 ASSUMPTIONS = ["'objects keep at least the properties check reports' is checked as key inclusion; whether an extra key of the "
@@ -32,8 +34,12 @@ ASSUMPTIONS = ["'objects keep at least the properties check reports' is checked 
                "schema of the root value (top_sch of the root chain, merged once more with the base's as eval.go:123-130 does) "
                "after projecting esc's schema onto the model's vocabulary (type / prefixItems+items / properties+"
                "additionalProperties / oneOf / true / false; const, required and annotations projected away); a difference is a "
-               "`mismatch`; implementation schemas outside that vocabulary (anyOf of providers) are skipped and counted "
-               "(coverage.schema_model_vs_impl)"]
+               "`mismatch` OUTSIDE Corr/C06Schema.hist_class (the model memoises a value merged over a base whose non-nil "
+               "additionalProperties it absorbs: Go's schema then depends on how often the value has been merged - copies made "
+               "by references, in-place re-merges by the parent, evaluation order - which the model's recomputed chain schema "
+               "does not follow; inside the class the comparison is a measurement: disagree_inside_history_class / "
+               "agree_inside_history_class); implementation schemas outside that vocabulary (anyOf of providers) are skipped "
+               "and counted (coverage.schema_model_vs_impl)"]
 TRUSTED = []
 
 
@@ -89,6 +95,9 @@ def gen(rng, tier):
     cases += [SC.consumer_world(rng.fork("sc%d" % i)) for i in range(3000 if thorough else 260)]
     cases += [SC.literal_world(rng.fork("sl%d" % i)) for i in range(600 if thorough else 60)]
     cases += [SC.union_world(rng.fork("su%d" % i)) for i in range(600 if thorough else 60)]
+    # ---- schemas that depend on the merge history: the border of Corr/C06Schema.hist_class ----
+    cases += SC.history_regressions()
+    cases += [SC.history_world(rng.fork("sh%d" % i)) for i in range(2500 if thorough else 250)]
     return cases
 
 
@@ -114,6 +123,9 @@ def line(c, o):
     if c.get("schema_only"):
         # providers declaring unions: outside the evaluator model's vocabulary; the schema oracle alone
         return "(c06s %s %s)" % (G.w_envdef(c["def"]), SC.schema_part(c, m))
+    if c.get("schema_cmp_only"):
+        # history family: the model's schema against the implementation's (outside Corr/C06Schema.hist_class), nothing else
+        return "(c06h %s %s %s %s)" % (G.sx(c["name"]), G.w_envdef(c["def"]), G.w_world(c), SC.schema_part(c, m))
     return "(c06 %s %s %s %s %s %s %s)" % (G.sx(c["name"]), G.w_envdef(c["def"]), G.w_world(c), G.w_obs(m[0]), G.w_obs(m[1]),
                                           G.w_obs(m[2]), SC.schema_part(c, m))
 
